@@ -97,6 +97,7 @@ void mc_exists(int slot) { if (ctl) ctl->exists_mask |= 1u << (slot & 31); }
 void mc_observe(int slot, long v) { observes[slot & 7] = v; }
 void mc_step(void) { sched_point(OP_STEP, NULL, 0); }
 int mc_self(void) { return my_tid; }
+long mc_exec_id(void) { return ctl ? ctl->exec_id : 0; }
 void mc_wait_all(void) { int i; sched_point(OP_WAITALL, NULL, 0); for (i = 0; i < nthreads; i++) if (i != my_tid && T[i].used) { vc_join(T[my_tid].vc, T[i].vc); ch_note(T[i].ch); } }
 void mc_mark(void) { T[my_tid].blocked_count = 0; T[my_tid].long_waits = 0; }
 int mc_long_waits(void) { return (int)T[my_tid].long_waits; }
@@ -436,6 +437,7 @@ static int run_child(const uint8_t *prefix, const uint8_t *prefix_n, int len, in
     ctl->ntrace = 0; ctl->overflow = 0; ctl->steps = 0; ctl->violated = 0; ctl->engine_error = 0; ctl->finished = 0;
     ctl->outcome[0] = 0; ctl->nontrivial_mask = 0; ctl->exists_mask = 0; ctl->log_len = 0; ctl->verbose = verbose; ctl->horizon = B.horizon;
     ctl->sig[0] = ctl->desc[0] = ctl->prop[0] = 0;
+    { static long seq; ctl->exec_id = (long)getpid() * 1000000L + (++seq); }
     pid = fork();
     if (pid < 0) { perror("fork"); exit(2); }
     if (pid == 0) { run_execution(); _exit(0); }
